@@ -22,6 +22,8 @@ Directive grammar (each on its own line, leading whitespace allowed):
   //@ for-next N into=F next=G [iter=NAME]   rule R18: the N-th loop, a `for`, is written as `loop { match G(&mut it) {..} }`
   //@ region-loop-body "TEXT" [#k]   rule R19: like region-start, but only the BODY of the loop that starts at TEXT (one iteration);
                             a `continue` of that loop becomes `return <epilogue>`
+  //@ region-call "ANCHOR" [#k] => "CALL"   inside a region: the statement that starts at (the k-th occurrence of) ANCHOR - itself a region
+                            verified on its own - is replaced by CALL
   //@ region-start "TEXT" / region-end "TEXT" / region-as HEADER / region-prologue TEXT / region-epilogue TEXT
                             rule R16: the block statement of the fn that starts at TEXT becomes the body of a
                             synthetic function with the declared header (nested fn items are cut; select them with
@@ -630,6 +632,40 @@ def rule_r17(text, rules):
         text = text[:st[i + 1].start] + var + " " + text[st[j].start:st[b].end] + (" let %s = %s;" % (pat, var)) + text[st[b].end:]
         rules.append("R17")
 
+def rule_r22(text, rules):
+    """RECV.iter().map(|X| E).collect()  ->  { let mut __cK = Vec::new(); for X in RECV.iter() { __cK.push(E); } __cK }
+    (Verus has no specification for the Map adapter / collect.)  RECV is a path of identifiers and field accesses, X one identifier;
+    refused if E contains `return` or `?` (they would leave the closure, not the function).  The result is a Vec: any other
+    collect target is rejected by the type checker of the generated text.  The for-loop counts as a loop of the function."""
+    k = 0
+    while True:
+        toks, st = _sig_with_index(text)
+        hit = None
+        for i in range(len(st) - 12):
+            tx = [y.text for y in st[i:i + 8]]
+            if tx[:7] != [".", "iter", "(", ")", ".", "map", "("] or tx[7] != "|": continue
+            if not (st[i + 8].kind == "ident" and st[i + 9].text == "|"): continue
+            mo = i + 6; mc = match_close(st, mo)
+            if [y.text for y in st[mc + 1:mc + 5]] != [".", "collect", "(", ")"]: continue
+            # receiver: identifiers / self joined by `.`
+            r = i - 1
+            if not (st[r].kind == "ident"): continue
+            while r - 2 >= 0 and st[r - 1].text == "." and st[r - 2].kind == "ident": r -= 2
+            if r - 1 >= 0 and st[r - 1].text in (".", "::", ")", "]", "?"): continue    # part of a longer postfix expression: leave it
+            body = st[i + 10:mc]
+            if any((y.kind == "ident" and y.text == "return") or (y.kind == "punct" and y.text == "?") for y in body):
+                raise ExtractError("unsupported: `return` / `?` inside a map(..).collect() closure")
+            hit = (r, i, mc); break
+        if hit is None: return text
+        r, i, mc = hit
+        k += 1
+        recv = text[st[r].start:st[i - 1].end]
+        var = st[i + 8].text
+        E = text[st[i + 10].start:st[mc - 1].end]
+        new = "{ let mut __c%d = Vec::new(); for %s in %s.iter() { __c%d.push(%s); } __c%d }" % (k, var, recv, k, E, k)
+        text = text[:st[r].start] + new + text[st[mc + 4].end:]
+        rules.append("R22")
+
 def rule_r18(text, rules, specs):
     """for PAT in E { B }  ->  { let mut IT = INTO(E); loop { match NEXT(&mut IT) { None => { break; } Some(PAT) => { B } } } }
     - the definition of `for` in the Rust reference - for iterators that have no Verus specification (wasmparser's section
@@ -907,10 +943,17 @@ def extract_item(path, selector, opts, directives, findings_open):
             if eds: rules.append("R19")
         # a statement nested in the region that is a region of its own (verified separately against the same text) is replaced
         # by a call to its synthetic function
-        for (anc, repl) in rg.get("calls", []):
+        for call in rg.get("calls", []):
+            anc, repl = call[0], call[1]; kth = call[2] if len(call) > 2 else None
             nn = region.count(anc)
-            if nn != 1: raise ExtractError("anchor lost: region-call %r occurs %d times in the region of %s %s" % (anc[:40], nn, path, selector))
-            a2 = region.index(anc)
+            if kth is None:
+                if nn != 1: raise ExtractError("anchor lost: region-call %r occurs %d times in the region of %s %s" % (anc[:40], nn, path, selector))
+                a2 = region.index(anc)
+            else:
+                # `#k`: the k-th occurrence in the region text as it is when this directive is applied (list them from the last to the first)
+                if nn < kth: raise ExtractError("anchor lost: region-call %r #%d: only %d occurrences in the region of %s %s" % (anc[:40], kth, nn, path, selector))
+                a2 = -1
+                for _ in range(kth): a2 = region.index(anc, a2 + 1)
             t2, st2 = _sig_with_index(region)
             i2 = next((i for i, t in enumerate(st2) if t.start == a2), None)
             if i2 is None or not _stmt_start(st2, i2):
@@ -920,7 +963,7 @@ def extract_item(path, selector, opts, directives, findings_open):
         pc.span = [start + r_lo, start + r_hi]
         pc.orig = orig[r_lo:r_hi]
         pc.sha256 = hashlib.sha256(pc.orig.encode()).hexdigest()
-        pc.region = {"header": rg["as"], "prologue": rg.get("prologue", ""), "epilogue": rg.get("epilogue", ""), "nested_fns_cut": len(cuts), "nested_regions_called": [{"anchor": a, "call": r} for a, r in rg.get("calls", [])]}
+        pc.region = {"header": rg["as"], "prologue": rg.get("prologue", ""), "epilogue": rg.get("epilogue", ""), "nested_fns_cut": len(cuts), "nested_regions_called": [{"anchor": c[0], "call": c[1], "occurrence": (c[2] if len(c) > 2 else None)} for c in rg.get("calls", [])]}
         text = "%s\n{\n%s\n%s\n%s\n}" % (rg["as"], rg.get("prologue", ""), region, rg.get("epilogue", ""))
         rules.append("R16")
     # attributes: types keep their derive attributes (R2 edits), everything else dropped
@@ -977,6 +1020,7 @@ def extract_item(path, selector, opts, directives, findings_open):
         text = rule_r14(text, rules)
         text = rule_r4(text, rules)
         text = rule_r17(text, rules)
+        text = rule_r22(text, rules)
         if directives.get("fornext") and it.kind == "fn":
             text = rule_r18(text, rules, directives["fornext"])
         if "r3" in opts:
@@ -1263,9 +1307,12 @@ def generate(spec_path, open_findings=(), auto_helpers=()):
                             q, _r = _parse_quoted(d2[len("region-end "):]); directives.setdefault("region", {})["end"] = q
                         elif d2.startswith("region-call "):
                             a_, rest_ = _parse_quoted(d2[len("region-call "):])
+                            rest_ = rest_.strip(); k_ = None
+                            mk_ = re.match(r"#(\d+)\s*", rest_)
+                            if mk_: k_ = int(mk_.group(1)); rest_ = rest_[mk_.end():]
                             if not rest_.startswith("=>"): raise ExtractError("bad region-call: %s" % d2)
                             b_, _r = _parse_quoted(rest_[2:])
-                            directives.setdefault("region", {}).setdefault("calls", []).append((a_, b_))
+                            directives.setdefault("region", {}).setdefault("calls", []).append((a_, b_) if k_ is None else (a_, b_, k_))
                         elif d2.startswith("region-as "): directives.setdefault("region", {})["as"] = d2[len("region-as "):].strip()
                         elif d2.startswith("region-prologue "): directives.setdefault("region", {})["prologue"] = d2[len("region-prologue "):].strip()
                         elif d2.startswith("region-epilogue "): directives.setdefault("region", {})["epilogue"] = d2[len("region-epilogue "):].strip()
